@@ -24,6 +24,11 @@ def rules(f):
     scope = {r['fn'] for r in rollback.analyse(f, P)} | {n for n in (__import__('qv.interp', fromlist=['short']).short(b.path) for b in f.body_list)
                                                          if 'cow' in n.lower() or n.startswith('do_write')}
     c17.discard_combinators(f, rep, 'C10.10', scope=lambda n: n in scope)
+    c17.swallowed_arm_rule(f, rep, 'C17.8')
+    c03.release_once_rule(f, P, rep, 'C03.10')
+    c13.decrement_rule(f, P, rep, 'C13.6')
+    from .props import c20
+    c20.bound_rule(f, P, rep)
     for (fn, where, ok, detail) in run_contiguity(f, P):
         if not ok:
             rep.violation('C08.8', 'C08.8:%s' % fn, where, detail)
